@@ -140,7 +140,7 @@ def run(ctx):
         rb = os.path.basename(j["root"])
         exprs.append(walklib.walk_expr([(walklib.opts_term(0, j["mx"], j["dfs"], arc=True), rb, os.path.realpath(j["root"]),
                                          walklib.node_term(j["obs"], zips=zl), fstree.count(j["obs"]) + 1)]))
-    model = [walklib.parse_walk(t) for t in coq_eval(walklib.COQ_HEADER, exprs, ctx.scratch, tag="c19", shard=8)]
+    model = walklib.safe_walk_eval(ctx, exprs, "c19", 8)
     for j, (r_arc, r_no, cols, rc, r_f, r_fa, lim), m in zip(jobs, res, model):
         st["evaluations"] += 1
         rb = os.path.basename(j["root"])
@@ -168,8 +168,8 @@ def run(ctx):
             ctx.violation("impl-violates-spec", "member rows are not exactly the members of the readable archives, once each, in order", input=case,
                           observed=valid_member_rows[:30], expected=exp[:30])
             continue
-        mrows = [walklib.render_row(p, mm) for p, mm in m["rows"]]
-        if not m["ok"] or mrows != valid_member_rows:
+        mrows = [walklib.render_row(p, mm) for p, mm in m["rows"]] if m is not None else valid_member_rows
+        if m is not None and (not m["ok"] or mrows != valid_member_rows):
             ctx.violation("correspondence-mismatch", "rows differ from model.Walk with archive listings", input=case, observed=valid_member_rows[:30], model=mrows[:30], concrete=False,
                           correspondence="binary `archives` vs model.Walk.walk_roots (members loop)")
             continue
